@@ -2,7 +2,6 @@
 package ref
 
 import (
-	"io/fs"
 	"os"
 	"path"
 	"path/filepath"
@@ -95,32 +94,41 @@ func Match(pattern, rel string) bool {
 }
 
 // Denotation is the reference meaning of a glob under root: every regular file
-// whose relative path matches and does not begin with a dot. Absolute paths, sorted.
+// whose relative path matches and does not begin with a dot. A symbolic link to a regular
+// file is a file, a symbolic link to a directory is a directory (its files are reached under
+// the link's own path). Absolute paths, sorted.
 func Denotation(root, pattern string) []string {
 	var out []string
-	_ = filepath.WalkDir(root, func(p string, d fs.DirEntry, err error) error {
+	var walk func(dir, rel string, depth int)
+	walk = func(dir, rel string, depth int) {
+		if depth > 16 { // links that lead back up: workloads do not build them, do not hang if one does
+			return
+		}
+		entries, err := os.ReadDir(dir)
 		if err != nil {
-			return nil
+			return
 		}
-		if !d.Type().IsRegular() {
-			// a symbolic link to a regular file is a file too (symlinked directories are not descended into)
-			if d.Type()&fs.ModeSymlink == 0 {
-				return nil
+		for _, e := range entries {
+			p := filepath.Join(dir, e.Name())
+			r := e.Name()
+			if rel != "" {
+				r = rel + "/" + e.Name()
 			}
-			if info, err := os.Stat(p); err != nil || !info.Mode().IsRegular() {
-				return nil
+			info, err := os.Stat(p) // follows links
+			if err != nil {
+				continue
+			}
+			switch {
+			case info.IsDir():
+				walk(p, r, depth+1)
+			case info.Mode().IsRegular():
+				if !strings.HasPrefix(r, ".") && Match(pattern, r) {
+					out = append(out, p)
+				}
 			}
 		}
-		rel, _ := filepath.Rel(root, p)
-		rel = filepath.ToSlash(rel)
-		if strings.HasPrefix(rel, ".") {
-			return nil
-		}
-		if Match(pattern, rel) {
-			out = append(out, p)
-		}
-		return nil
-	})
+	}
+	walk(root, "", 0)
 	sort.Strings(out)
 	return out
 }
